@@ -20,13 +20,76 @@ def P(pid, level='proof', trusted=None, assumptions=None, explanation='', claime
 
 ARITH = 'machine arithmetic is checked, not assumed mathematical (Kani overflow/shift checks on)'
 
+A1 = 'A1 std semantics: Vec::extend(iter.map(f)), Vec::retain, Vec::contains, slice iteration act element-wise and in order (lifts "one representative per seam call" / "lists of length <= 3" to lists of any length)'
+A2 = 'A2 induction principle: the reachable-state invariant (legal_board, wf_status, step <= 3, hash bookkeeping) is precondition and postcondition of every transition obligation; Init + Step => all reachable states is the one meta-level step'
+A3 = 'A3 no 64-bit Zobrist collision between two distinct (board, side) pairs compared by the repetition rules (needed only to read hash-level statements at position level)'
+A7 = 'A7 cross-tool assume/guarantee: Kani obligations see map_bit_board_to_squares / piece_board_value as stubs or ghost values whose contracts are discharged by Verus units (and vice versa for bits_for_piece / piece_value); the identity of the two renderings of each contract sentence is by inspection'
+KANI = 'Kani harness-contracts (assume pre / call the real fn / assert post) and in-place Kani function contracts on the woven real crate, fully symbolic 64-bit boards, CBMC bit-blasting; callers composed against callee contracts via stubs'
+
+P('C01',
+  assumptions=[ARITH, A1, A2, A7],
+  level_text='Every function between the property and the code carries a contract discharged for all well-formed boards, both sides, all statuses and step indices: freezing/threat masks and edge-masked shifts against per-square neighbour arithmetic; the three generators against the mailbox rule spec (simple_step, push_start, pull_complete, push_complete) with the bit-set->list seam cut by contract (Verus proves the seam); can_pass(false); the assembly of valid_actions_ against the generator contracts (order, pull de-duplication, pass, no duplicates); the status state machine and its invariant (a pending push always has a completion).',
+  level_note='List layer rests on A1 (std Vec semantics) and on the seam contract proved by Verus (A7); clause (d) of DESIGN C01 (grammar lemma: greedy acceptor == parse into single steps/pushes/pulls) is not discharged and not claimed. No bound on boards.',
+  technique=KANI + '; Verus for the seam loop')
 P('C02',
-  assumptions=[ARITH, 'A2 induction principle: legal_board is pre- and postcondition of every step'],
-  level_text='Contract of PieceBoard::take_action (and through it move_piece / remove_trapped_pieces / trapped_piece_bits) '
-             'discharged by CBMC for all legal boards (eight fully symbolic u64), all 64 source squares and 4 directions: per-square '
-             'content equals the rule spec after_step_at, the eight words stay consistent, the capture flag is exact; lifted to '
-             'GameState::take_action / pass by the transition obligations. Loop-free code over full-width symbolic words, so this is a proof, not a bounded check.',
+  assumptions=[ARITH, A2],
+  level_text='Contract of PieceBoard::take_action (through it move_piece / remove_trapped_pieces / trapped_piece_bits) discharged by CBMC for all legal boards (eight fully symbolic u64), all 64 source squares and 4 directions: per-square content equals the rule spec after_step_at, the eight words stay consistent, the capture flag is exact; lifted to GameState::take_action(Move) for each of the four step cases and to Pass (board unchanged) by the transition obligations. Loop-free code over full-width symbolic words: a proof, not a bounded check.',
   level_note='Trusted: CBMC/Kani soundness, the mailbox rule spec in kani/vspec.rs, the induction principle. No bound.',
-  technique='Kani harness-contracts (assume pre / call real fn / assert post) over fully symbolic boards, CBMC bit-blasting')
+  technique=KANI)
+P('C03',
+  assumptions=[ARITH, A2, 'move_number < usize::MAX is a precondition (machine range); the state with move_number == usize::MAX is known finding D4'],
+  level_text='Postcondition of GameState::take_action for Move at each step 0..3 and Pass at steps 1..3, all boards/sides/statuses/move numbers: side, step counter (= length of the per-turn record, <= 3), move number (+1 exactly when Silver ends a turn), status None and fresh record at turn start.',
+  level_note='One known finding (D4, usize::MAX move number) is reported as KNOWN-FINDING by a dedicated obligation; any other overflow there is a fresh violation.',
+  technique=KANI)
+P('C04',
+  assumptions=[ARITH, A2, 'has_move == None <=> an action is offered is taken from C07\'s obligations (contract composition)'],
+  level_text='is_terminal is proved equal to the six-line official order at step 0 (all well-formed boards, both sides), to has_move alone mid-turn, and to None in setup, composing the in-place contracts of rabbit_at_goal and lost_all_rabbits (goal ranks by rank arithmetic over all 8 files; last mover first) and the has_move contract.',
+  level_note='Composition is modular: is_terminal is checked against spec stubs that the callee contracts prove equal to the callees. No bound.',
+  technique='in-place Kani function contracts (proof_for_contract) on rabbit_at_goal / lost_all_rabbits + modular harness-contract for is_terminal')
+P('C06',
+  assumptions=[ARITH, A1, A2, A3, A7, 'history oracle: hash_history_contains_hash_twice is an uninterpreted function of the queried hash above the leaf'],
+  level_text='Hash-level statement proved for every history: valid_actions_ applies the filter exactly when repetition checking is on, last, to the whole rule list; the filter removes exactly the passing-like actions and only on the 4th step of a capture-free turn; is_passing_like_action(step) <=> result hashes like the turn start or its other-side hash occurred twice (oracle); can_pass(true) likewise; actions that do not end the turn are never withheld.',
+  level_note='Position-level reading ("equals the starting board", "third occurrence") is the hash-level statement under A3 plus C08. Lists of length <= 3 generalise by A1. The history leaf (counting on the linked list) is a bounded obligation under C05.',
+  technique=KANI + ' with an uninterpreted history oracle and an uninterpreted passing-like predicate')
+P('C07',
+  assumptions=[ARITH, A1, A2],
+  level_text='has_move is None exactly when valid_actions() is non-empty (proved modularly: has_move\'s logic against the generator/can_pass/filter contracts, the same contracts the assembly obligation of valid_actions_ uses) and otherwise a loss for the mover; is_terminal mid-turn == has_move; can_pass(f) <=> Pass is in valid_actions_(f) (assembly); setup always offers a placement and reports no result.',
+  level_note='Equivalence of the two list constructions goes through the shared abstract generator outputs; lists of <= 1 action per generator generalise by A1.',
+  technique=KANI + ', generators abstracted to their contracts')
+P('C08',
+  assumptions=[ARITH, A2, A7],
+  level_text='Every transition obligation proves the hash update in difference form (hash\' == hash ^ side switch ^ STEP change ^ board delta), place/pass/exclude_step/transposition_hash are proved as XOR algebra over the real tables, Eq/Hash use exactly the board-state hash, recorded history entries are the new turn-start hashes.',
+  level_note='The board delta piece_board_value == Hb(prev)^Hb(new) and from_piece_board == H(board,side,step) are Verus obligations on the extracted real loops; until those units are discharged in a run they are listed as assumed in the evidence.',
+  technique=KANI + '; Verus for the hashing loops')
+P('C09',
+  assumptions=[ARITH, A2],
+  level_text='One obligation over a symbolic placed-set satisfying the setup invariant (every prefix of every placement order of both armies at once): offered placements == types below complement in E,M,H,D,C,R order (non-empty), place() puts the piece on the n-th home square and changes nothing else, invariant preserved, side/phase/move-number switch at the 16th/32nd placement, hash update, history start.',
+  level_note='No bound: n is symbolic in 0..31 and the board is any board satisfying the invariant.',
+  technique=KANI)
+P('C12',
+  assumptions=[ARITH, A2],
+  level_text='next_push_pull_state equals the rule state machine next_pp for every offered step on every well-formed board; the status invariant (vacated square empty, pushed piece not an elephant, pulling piece not a rabbit, an unfrozen strictly stronger friend adjacent to a pending push) is preserved by every offered step; must_complete_push_actions == steps of unfrozen strictly stronger friends into the vacated square, 1..4 of them; status None at every turn start.',
+  level_note='No bound.',
+  technique=KANI)
+P('C13',
+  assumptions=[ARITH, A2],
+  level_text='trapped_animal_for_action agrees with PieceBoard::take_action on all legal boards and all steps onto an empty neighbour: None <=> nothing removed; otherwise the reported square/type/owner is the one and only piece removed; at most one capture per step.',
+  level_note='No bound.',
+  technique=KANI)
+P('C14',
+  assumptions=[ARITH, A2],
+  level_text='The transition obligations prove the per-turn record after a step is the old record plus the old current board; piece_board_for_step(i) returns record[i] for i < k and the current board for i == k, for k = 0..3.',
+  level_note='No bound beyond the step counter\'s own range 0..3 (proved invariant).',
+  technique=KANI)
+P('C16',
+  assumptions=[ARITH, A7],
+  level_text='Value level proved; the seam proved unbounded by Verus.',
+  level_note='String-level obligations are bounded by string length (stated in the evidence).',
+  technique='Verus on the extracted real loop; Kani for the finite value domains')
+P('C17',
+  assumptions=[ARITH, 'hash == H(board, side, step) is C08'],
+  level_text='Injectivity of the real lookup functions over their complete finite domains with symbolic indices: 768 piece/square values non-zero and pairwise distinct, 641 status values pairwise distinct, STEP values distinct, PLAYER_TO_MOVE non-zero; transposition_hash == hash ^ status value.',
+  level_note='Complete finite domain, symbolic indices: exhaustive.',
+  technique='Kani lemmas over the real table lookups, symbolic indices')
 P('C15', claimed=False, na_reason='FromStr/Display for GameState run through regex::Regex and str iterator adapter chains / fmt::Formatter; neither Kani (cannot symbolically execute or stub the regex engine) nor Verus (no str reasoning, no iterator adapters) can carry a contract that quantifies over all strings; the per-function facts it rests on are proved under C08/C10/C16 (DESIGN.md section 7, C15)')
 P('C20', claimed=False, na_reason='the failure is recursion depth of compiler-generated drop glue for Option<Arc<Node<T>>>; stack use is not expressible as a pre/postcondition in Kani (no stack model) or Verus (does not model drop), and there is no function in the source to attach a contract to (DESIGN.md section 7, C20)')
